@@ -130,7 +130,7 @@ def plant_decoys(rng, root, tree, cwd_abs):
 
 def plan(tier, seed):
     n_shards = 16 if tier == "quick" else 48
-    return [{"seed": seed * 4447 + i * 15485867 + 53, "layouts": 25 if tier == "quick" else 330}
+    return [{"seed": seed * 4447 + i * 15485867 + 53, "layouts": 80 if tier == "quick" else 600}
             for i in range(n_shards)]
 
 
